@@ -20,6 +20,7 @@ type editGenLine struct {
 	Lines   []int  `json:"lines"`
 	LexOK   bool   `json:"lexok"`
 	Accepts bool   `json:"accepts"`
+	Unspec  bool   `json:"unspec"`
 	NToks   int    `json:"ntoks"`
 }
 
@@ -137,7 +138,7 @@ func cmdEditCheck(args []string) {
 			die(2, "bad gen line: %v", err)
 		}
 		g.Text = widen(g.Text, n) // wider characters, same positions (TLC itself only carries Latin-1 safely)
-		line := J{"e": "edit", "id": g.ID, "n": n, "text": g.Text, "lines": g.Lines, "lexok": g.LexOK, "accepts": g.Accepts}
+		line := J{"e": "edit", "id": g.ID, "n": n, "text": g.Text, "lines": g.Lines, "lexok": g.LexOK, "accepts": g.Accepts, "unspec": g.Unspec}
 		if args[2] == "parser" {
 			line["obs"] = observeParser(g.Text)
 		} else {
